@@ -4,6 +4,7 @@ from ..engine import analyze_fn, norm
 from ..streamrules import (rule_load_before_get, rule_cache_protocol, rule_io_protocol, stream_fns, is_io_call, wh)
 from ..terms import T, Term, pp
 
+REQUIRES = ("std",)
 LEVEL = "proof"
 RULE_TEXT = ("(a) panic-site census over module elf_stream (as C01) with a typestate rule for the one `expect`: every get_bytes(r) is dominated "
              "by the success edge of load_bytes(r) with no clear_cache in between; (b) every allocating call site is enumerated and its size "
